@@ -323,12 +323,22 @@ def run_check(prop, tier, seed, replay=None):
     if not I and (M or T) and ok_harness:
         searched = True
         log(f"[{prop}] proof obligations or correspondence broken; searching for a failing input (larger budget, other seeds)")
+        # cheap streams first (uncontrolled stress, long strings, Miri, sequential cases), schedule replay last;
+        # in the quick tier the search stops launching new streams after a time budget
+        t_search = time.time()
+        budget = 300 if tier == "quick" else 3600
+        ordered = sorted(spec["streams"], key=lambda f: 1 if getattr(f, "__name__", "").startswith("conc_") else 0)
         for k in range(1, 3):
             ctx2 = dict(ctx, mult=3, seed=seed + 1000 * k, search=True)
-            for stream in spec["streams"]:
+            for stream in ordered:
+                if time.time() - t_search > budget:
+                    notes.append("failing-input search stopped at its time budget")
+                    break
                 r = stream(ctx2)
                 I += r.get("I", [])
-            if I:
+                if I:
+                    break
+            if I or time.time() - t_search > budget:
                 break
 
     # 6. verdict
@@ -424,6 +434,7 @@ def run_check(prop, tier, seed, replay=None):
         "known_findings_hit": sorted(seen),
         "samples": samples[:8] if samples else [{"note": "no correspondence samples (harness did not run)"}],
         "searched_for_failing_input": searched,
+        "notes": notes,
     }
     ev = {
         "property_id": prop, "tier": tier, "seed": seed, "level": "proof", "coverage": cov,
